@@ -36,14 +36,17 @@ def case_planestrain(fam2, geometry, rep):
         owner = np.array([idx2[k] for k in key(mesh3.points)])
         f3[0].values[:, :2] = u2[owner]
         f3[0].values[:, 2] = 0.0
-        mat = C01.MATS[rep % 4]
-        um = C01.materials(rng, mat)
+        mat = (C01.MATS + ["LinearElastic"])[rep % 7]
+        um = fem.LinearElastic(E=2.0, nu=0.3) if mat == "LinearElastic" else C01.materials(rng, mat)  # incl. a cell-constant integrand
         s2 = fem.SolidBody(um, f2)
         s3 = fem.SolidBody(copy.deepcopy(um), f3)
-        r2 = s2.assemble.vector(f2).toarray().ravel()
-        r3 = s3.assemble.vector(f3).toarray().ravel()
-        K2 = s2.assemble.matrix(f2).toarray()
-        K3 = s3.assemble.matrix(f3).toarray()
+        par = bool((rep // 7) % 2) or (run.tier == "quick" and rep % 2 == 1)  # threaded assembly in part of the cases
+        r2 = s2.assemble.vector(f2, parallel=par).toarray().ravel()
+        r3 = s3.assemble.vector(f3, parallel=par).toarray().ravel()
+        K2 = s2.assemble.matrix(f2, parallel=par).toarray()
+        K3 = s3.assemble.matrix(f3, parallel=par).toarray()
+        if par:
+            run.units["planestrain:parallel"] += 1
         n2, n3 = mesh2.npoints, mesh3.npoints
         T = np.zeros((3 * n3, 2 * n2))
         for p in range(n3):
@@ -159,8 +162,16 @@ def case_condensed(kind, fam, rep):
             f3 = fem.FieldsMixed(reg, n=3, planestrain=kind == "planestrain", axisymmetric=kind == "axisymmetric")
             b1, l1 = fem.dof.uniaxial(f1, clamped=True, move=move, sym=False)
             b3, l3 = fem.dof.uniaxial(f3, clamped=True, move=move, sym=False)
-            s1 = fem.SolidBodyNearlyIncompressible(fem.NeoHooke(mu=mu), f1, bulk=bulk)
-            s3 = fem.SolidBody(fem.NearlyIncompressible(fem.NeoHooke(mu=mu), bulk=bulk), f3)
+            # isochoric law with / without out= buffers; the second explicit three-field implementation for the Neo-Hookean case
+            variant = ["NeoHooke|NearlyIncompressible", "NeoHooke|ThreeFieldVariation", "tt.yeoh|NearlyIncompressible", "NeoHookeCompressible|NearlyIncompressible"][rep % 4]
+            mk_iso = {"NeoHooke": lambda: fem.NeoHooke(mu=mu), "tt.yeoh": lambda: fem.Hyperelastic(fem.yeoh, C10=mu / 2, C20=-0.05 * mu, C30=0.02 * mu),
+                      "NeoHookeCompressible": lambda: fem.NeoHookeCompressible(mu=mu)}[variant.split("|")[0]]
+            s1 = fem.SolidBodyNearlyIncompressible(mk_iso(), f1, bulk=bulk)
+            if variant.endswith("ThreeFieldVariation"):
+                s3 = fem.SolidBody(fem.ThreeFieldVariation(fem.NeoHooke(mu=mu, bulk=bulk)), f3)
+            else:
+                s3 = fem.SolidBody(fem.NearlyIncompressible(mk_iso(), bulk=bulk), f3)
+            run.units["condensed:variant:" + variant] += 1
             try:
                 r1 = fem.newtonrhapson(items=[s1], verbose=False, tol=1e-11, **l1)
                 r3 = fem.newtonrhapson(items=[s3], verbose=False, tol=1e-11, **l3)
@@ -194,7 +205,7 @@ def case_condensed(kind, fam, rep):
             move2 = 1.4 * move
             b1["move"].update(move2)
             b3["move"].update(move2)
-            s1b = fem.SolidBodyNearlyIncompressible(fem.NeoHooke(mu=mu), f1, bulk=bulk)
+            s1b = fem.SolidBodyNearlyIncompressible(mk_iso(), f1, bulk=bulk)
             d0, d1 = fem.dof.partition(f1, b1)
             e0 = fem.dof.apply(f1, b1, d0)
             d03, d13 = fem.dof.partition(f3, b3)
@@ -287,6 +298,7 @@ SPEC = {
                        "planestrain:stiffness:quad8", "planestrain:stiffness:quad9", "axisymmetric:energy:quad", "axisymmetric:energy:quad8",
                        "axisymmetric:energy:triangle", "axisymmetric:revolve-convergence", "condensed:u:3d", "condensed:u:planestrain",
                        "condensed:u:axisymmetric", "condensed:p:3d", "condensed:J:3d", "condensed:bulk:1", "condensed:bulk:2", "condensed:bulk:3", "condensed:state:3d", "condensed:restart:3d", "condensed:restart:axisymmetric",
+                       "planestrain:parallel", "condensed:variant:NeoHooke|ThreeFieldVariation", "condensed:variant:tt.yeoh|NearlyIncompressible",
                        "uniform:vector", "uniform:matrix", "uniform:vector:axisymmetric", "uniform:matrix:axisymmetric", "uniform:constant:linear-elastic-matrix", "uniform:constant:mass", "uniform:constant:body-force"],
     "rule": ("quad4/8/9 ~ hex8/20/27 pairs on undistorted / in-plane distorted / affine meshes with smooth random in-plane states and 4 "
              "materials; axisymmetric forces vs central differences of the oracle-side revolved strain energy on 5 families and vs 360-degree "
